@@ -20,7 +20,7 @@ Accept(e) ==
                    \* the logarithm relation subtracts s * ln 2 from a result of that size: conditioned by |s ln 2 / log z|, judged with the coarse threshold
                    /\ (IF a.fn \in {"log", "logabs"} THEN NotFarCoarse(a.w, a.ws, e.width) ELSE Close(a.w, a.ws, e.width)))
   \* the two calling forms of one operation (and the component-wise definitions of add/sub with a scalar) give the same value
-  /\ (a.k = "e" => a.w = a.ws)
+  /\ (a.k = "e" => a.w = a.ws \/ Close(a.w, a.ws, e.width))        \* identical, or within the accuracy the property grants either form
   /\ (a.k \in {"r", "r2"} => Finite(a.y))
 Inconclusive(e) == DistClass(Val(e.ref), Val(e.alt), e.width) = 1
 TraceInit == l = 1
